@@ -8,8 +8,9 @@
         |r − v·65536| ≤ 1/2 + (|v|·65536 + 1/2)·2^-p        (the one rounding of `v*65536 ± 0.5` in the source type)
       and r is exactly |v|·65536 rounded half away from zero whenever |v|·65536 + 1/2 is representable;
     • otherwise (|v| ≥ 2^31−1, ±inf, NaN)  ⇒  NaN.
-  fixed → double is exact for |raw| ≤ 2^53; fixed → F is RN_F(raw)/65536 (one correctly rounded int→F conversion and
-  an exact division) with relative error ≤ 2^-p, for every int64 raw; fixed → double → fixed is the identity for
+  fixed → double is exact for |raw| ≤ 2^53; fixed → F has the value of the single round-to-nearest-even of the exact
+  quotient raw/65536 (`C05_toFp_rn`: RN_F(raw)/65536 by one correctly rounded int→F conversion and an exact division,
+  and rounding commutes with the scaling by 2^-16, `roundRat_scale`), relative error ≤ 2^-p, for every int64 raw; fixed → double → fixed is the identity for
   |x| < 2^31−1.
 
   The last clause of the property as written ("identity on every value with |x| < 2^31") contradicts its first
@@ -211,6 +212,41 @@ theorem C05_toFp (f : Fmt) (hf : GoodFmt f) (x : Int) (h1 : -9223372036854775808
     calc |R - (x.natAbs : ℝ)| / 65536 ≤ (x.natAbs : ℝ) * (2 : ℝ) ^ (-(f.p : ℤ)) / 65536 := this
       _ = (x.natAbs : ℝ) / 65536 * (2 : ℝ) ^ (-(f.p : ℤ)) := by ring
   · exact ⟨Mq, Kq, by rw [fval_abs]; exact hrep, hMq, hKq⟩
+
+/-- **C05, fixed → F is the correctly rounded value, literally**: `fixed_to_floating_point<F>(x)` has the value of the
+    model's single round-to-nearest-even of the exact quotient `x / 65536` -/
+theorem C05_toFp_rn (f : Fmt) (hf : GoodFmt f) (x : Int) (h1 : -9223372036854775808 ≤ x) (h2 : x ≤ 9223372036854775807) (h0 : x ≠ 0) :
+    (fixedToFp f x).Finite ∧ (roundRat f (decide (x < 0)) x.natAbs 65536).Finite ∧
+    (fixedToFp f x).val = (roundRat f (decide (x < 0)) x.natAbs 65536).val := by
+  obtain ⟨q, E, R, hres, hval, _, _, ⟨q1, E1, hof, hofv⟩, _⟩ := fixedToFp_val f hf x h0 h1 h2
+  obtain ⟨p17, emin_le, emax_ge⟩ := hf
+  have hpz : (17 : ℤ) ≤ (f.p : ℤ) := by exact_mod_cast p17
+  have hnpos : 0 < x.natAbs := by omega
+  obtain ⟨l1, l2⟩ := ratLog2_spec x.natAbs 1 hnpos (by norm_num)
+  simp only [Nat.cast_one, div_one] at l1 l2
+  have hnr : (1 : ℝ) ≤ (x.natAbs : ℝ) := by exact_mod_cast hnpos
+  have hnlt : (x.natAbs : ℝ) < (2 : ℝ) ^ (64 : ℤ) := by
+    have : x.natAbs < 18446744073709551616 := by omega
+    have : ((x.natAbs : ℕ) : ℝ) < ((18446744073709551616 : ℕ) : ℝ) := by exact_mod_cast this
+    have e : ((2 : ℝ) ^ (64 : ℤ)) = 18446744073709551616 := by norm_num
+    rw [e]; push_cast at this; exact this
+  have hL0 : -1 < ratLog2 x.natAbs 1 := by
+    have : (2 : ℝ) ^ (0 : ℤ) < (2 : ℝ) ^ (ratLog2 x.natAbs 1 + 1) := by rw [zpow_zero]; linarith
+    have := two_zpow_lt _ _ this; omega
+  have hL1 : ratLog2 x.natAbs 1 < 64 := two_zpow_lt _ _ (lt_of_le_of_lt l1 hnlt)
+  obtain ⟨qq, r1, r2⟩ := roundRat_scale f (decide (x < 0)) x.natAbs 1 16 hnpos (by norm_num) (by omega) (by omega)
+  have e16 : 1 * 2 ^ 16 = 65536 := by norm_num
+  rw [e16] at r2
+  have hof' : ofInt f x = roundRat f (decide (x < 0)) x.natAbs 1 := rfl
+  rw [hof', r1] at hof
+  injection hof with _ hq hE
+  rw [hres, r2]
+  refine ⟨trivial, trivial, ?_⟩
+  simp only [FP.val_fin]
+  rw [fval_sg, fval_sg, hval, ← hofv, ← hq, ← hE, zpow_sub₀ (by norm_num)]
+  have : ((2 : ℝ) ^ ((16 : ℕ) : ℤ)) = 65536 := by norm_num
+  rw [this]; ring
+
 
 /-- **C05, round trip** (partial: `|x| < 2^31 − 1`, see the header): fixed → double → fixed is the identity -/
 theorem C05_roundtrip_partial (x : Int) (hx : x.natAbs < 2147483647 * 65536) :
